@@ -448,6 +448,7 @@ func (p *parseVisitor) VisitSaveFromAccount(c *parser2.SaveFromAccountContext) *
 		}
 	}
 	p.PushAddress(*addr)
+	monAddr := addr
 
 	typ, addr, compErr = p.VisitExpr(c.GetAcc(), false)
 	if compErr != nil {
@@ -458,6 +459,9 @@ func (p *parseVisitor) VisitSaveFromAccount(c *parser2.SaveFromAccountContext) *
 			"save monetary from account: the second expression should be of type 'account' instead of '%s'", typ))
 	}
 	p.PushAddress(*addr)
+
+	// the machine must load the balance OP_SAVE rewrites, also when the account is not a source
+	p.setNeededBalances(map[machine.Address]struct{}{*addr: {}}, monAddr)
 
 	p.AppendInstruction(program2.OP_SAVE)
 
